@@ -3,14 +3,14 @@ CONTRACT_MODULES = ['contracts.encoding', 'contracts.transactions', 'contracts.k
 CONTRACTS = ['bitcoinlib.transactions.Input.verify', 'bitcoinlib.keys.Signature.verify[digest-given]', 'bitcoinlib.keys.verify[signature-object]'] + [
     'bitcoinlib.transactions.Transaction.signature_hash[dispatch-tx_%s-arg_%s]' % ab for ab in
     [('segwit', None), ('segwit', 'segwit'), ('segwit', 'p2sh-segwit'), ('segwit', 'legacy'), ('legacy', None), ('legacy', 'legacy')]] + [
-    'bitcoinlib.transactions.Transaction.verify[%dinputs]' % n for n in (1, 2, 3)]
+    'bitcoinlib.transactions.Transaction.verify[%dinputs]' % n for n in (1, 2, 3)] + ['bitcoinlib.transactions.Transaction.verify[any-count]']
 LEVEL = 'proof'
 LEVEL_TEXT = ('Input.verify (the m-of-n counting loop) is proved SOUND and COMPLETE for any number of keys and signatures by an inductive loop '
               'invariant with a ghost matching: it returns True exactly when the first m signatures are valid for m distinct listed keys in '
               'increasing key order (termination proved by a variant). Signature.verify / keys.verify are proved to check exactly the digest passed '
               'in with the stored (r, s) and public point, whatever digest the object remembered. signature_hash dispatch is proved per witness '
               'type. One defect (a signature counted for two key slots) was repaired.')
-LEVEL_NOTE = ('Signature validity is the abstract predicate V(digest, signature j, key k) (ECDSA: C13 + assumed fastecdsa). Transaction.verify is proved for 1..3 inputs '
+LEVEL_NOTE = ('Signature validity is the abstract predicate V(digest, signature j, key k) (ECDSA: C13 + assumed fastecdsa). Transaction.verify is proved for ANY number of inputs (loop invariant with a quantified "all earlier inputs verified") and for 1..3 inputs '
               '(unrolled): True exactly when every input verifies under the digest of its own index / hash type / witness type. NOT covered: '
               'Transaction.sign placement, signing spread over several '
               'calls, the tamper clause (needs injectivity of the preimage + hash collision resistance + ECDSA unforgeability as hypotheses), '
